@@ -1,5 +1,5 @@
 From Coq Require Import Field Ring.
-From PatVerif Require Import Model.Issuance Proofs.CodecsP Proofs.AlgebraP Proofs.TokenVerifyP.
+From PatVerif Require Import Model.Issuance Proofs.CodecsP Proofs.AlgebraP Proofs.TokenVerifyP Proofs.BatchCodecsP Proofs.QuicwireP Model.Quicwire.
 From Coq Require Import ZifyN ZifyNat ZifyBool.
 Open Scope N_scope.
 
@@ -187,3 +187,95 @@ Section Type2P.
     intros [= <-]. cbn [t_type t_nonce t_ctx t_keyid t_auth]. repeat split; auto.
   Qed.
 End Type2P.
+
+Section Type5P.
+  Variable F : Type.
+  Variables (f0 f1 : F) (fadd fmul fsub : F -> F -> F) (fopp : F -> F) (fdiv : F -> F -> F) (finv : F -> F).
+  Hypothesis Fth : field_theory f0 f1 fadd fmul fsub fopp fdiv finv (@eq F).
+  Add Field Ff5 : Fth.
+  Variable h256 : list byte -> list byte.
+  Variable h2g : list byte -> F.
+  Variable enc_elt : F -> list byte.
+  Variable dec_elt : list byte -> option F.
+  Variable fin : list byte -> F -> list byte.
+  Variable prove_b : F -> list F -> list F -> list byte -> list byte.
+  Variable dleq_b_ok : F -> list F -> list F -> list byte -> bool.
+  Hypothesis h256_len : forall x, length (h256 x) = 32%nat.
+  Hypothesis dec_enc_elt : forall e, dec_elt (enc_elt e) = Some e.
+  Hypothesis enc_elt_len : forall e, length (enc_elt e) = 32%nat.
+  Hypothesis fin_len : forall i e, length (fin i e) = 64%nat.
+  Hypothesis dleq_b_complete : forall k bs rnd,
+    dleq_b_ok (fmul k f1) bs (map (fmul k) bs) (prove_b k bs (map (fmul k) bs) rnd) = true.
+  Hypothesis proof_b_len : forall k bs evs rnd, length (prove_b k bs evs rnd) = 64%nat.
+
+  Notation dec_all := (dec_all F dec_elt).
+  Notation token_input := (token_input h256).
+
+  Lemma dec_all_enc l : dec_all (map enc_elt l) = Some l.
+  Proof. induction l as [|x l IH]; cbn [map Issuance.dec_all]; [reflexivity|]. now rewrite dec_enc_elt, IH. Qed.
+  Lemma enc_all_32 l : Forall (fun e => length e = 32%nat) (map enc_elt l).
+  Proof. apply Forall_forall. intros e He. apply in_map_iff in He. destruct He as (x & <- & _). apply enc_elt_len. Qed.
+
+  Definition tok5 (k : F) (challenge keyid nonce : list byte) : token :=
+    let input := token_input 5 nonce challenge keyid in
+    {| t_type := 5; t_nonce := nonce; t_ctx := h256 challenge; t_keyid := keyid; t_auth := fin input (fmul k (h2g input)) |}.
+
+  (** the per-element step: unblinding the evaluation of the blinded input gives F(k, input), and the token decodes *)
+  Lemma tokens_of k challenge keyid : length keyid = 32%nat -> forall nonces betas,
+    length betas = length nonces -> Forall (fun n => length n = 32%nat) nonces -> Forall (fun b => b <> f0) betas ->
+    let inputs := map (fun n => token_input 5 n challenge keyid) nonces in
+    let bl := map (fun p => fmul (fst p) (h2g (snd p))) (combine betas inputs) in
+    all_some (map (fun p => dec_token 64 (fst (fst p) ++ fin (fst (fst p)) (fmul (finv (snd (fst p))) (snd p))))
+                  (combine (combine inputs betas) (map (fmul k) bl)))
+    = Some (map (tok5 k challenge keyid) nonces).
+  Proof.
+    intros Hk. induction nonces as [|n ns IH]; intros [|b bs] L Fn Fb; try discriminate; [reflexivity|].
+    cbn [map combine all_some fst snd]. inversion Fn as [|? ? Hn Fn']; subst. inversion Fb as [|? ? Hb Fb']; subst.
+    replace (fmul (finv b) (fmul k (fmul b (h2g (token_input 5 n challenge keyid)))))
+      with (fmul k (h2g (token_input 5 n challenge keyid))) by (field; exact Hb).
+    rewrite (token_of_input h256 h256_len) by (auto; try lia; apply fin_len).
+    cbn [length] in L. specialize (IH bs ltac:(lia) Fn' Fb'). cbn zeta in IH. rewrite IH. reflexivity.
+  Qed.
+
+  Theorem honest_type5_l k betas rnd nonces challenge keyid :
+    length keyid = 32%nat -> length betas = length nonces ->
+    Forall (fun n => length n = 32%nat) nonces -> Forall (fun b => b <> f0) betas ->
+    N.of_nat (32 * length nonces) <= max_varint ->
+    run5 F f1 fmul finv h256 h2g enc_elt dec_elt fin prove_b dleq_b_ok k betas rnd nonces challenge keyid
+      = Some (map (tok5 k challenge keyid) nonces).
+  Proof.
+    intros Hk L Fn Fb Hm. unfold Issuance.run5, Issuance.create5. cbn [s5_req s5_inputs s5_blinds s5_blinded s5_pk].
+    set (inputs := map (fun n => token_input 5 n challenge keyid) nonces).
+    set (bl := map (fun p => fmul (fst p) (h2g (snd p))) (combine betas inputs)).
+    assert (Lbl : length bl = length nonces).
+    { unfold bl, inputs. rewrite map_length, combine_length, map_length. lia. }
+    rewrite <- (app_nil_r (enc_req5 _)).
+    rewrite um_req5_enc.
+    2:{ unfold wf_req5. cbn [q5_keyid q5_elems]. split; [apply b2n_lt|]. split; [apply enc_all_32|].
+        rewrite (concat32_length _ (enc_all_32 bl)), map_length, Lbl. exact Hm. }
+    unfold Issuance.evaluate5. cbn [q5_elems]. rewrite dec_all_enc.
+    set (evs := map (fmul k) bl).
+    set (body := concat (map enc_elt evs)).
+    assert (Lb : length body = (32 * length nonces)%nat).
+    { unfold body. rewrite (concat32_length _ (enc_all_32 evs)), map_length. unfold evs. now rewrite map_length, Lbl. }
+    unfold Issuance.finalize5. cbn [s5_inputs s5_blinds s5_blinded s5_pk].
+    rewrite consume_enc_varint by (rewrite Lb; exact Hm).
+    rewrite skipn_app, Nat.sub_diag, skipn_all, skipn_O. cbn [app].
+    rewrite app_length.
+    replace (N.of_nat (length body + length (prove_b k bl evs rnd)) <? N.of_nat (length body)) with false by lia.
+    rewrite Nat2N.id, firstn_app, Nat.sub_diag, firstn_O, app_nil_r, firstn_all.
+    rewrite skipn_app, Nat.sub_diag, skipn_all, skipn_O. cbn [app].
+    rewrite Lb. replace ((32 * length nonces) mod 32)%nat with 0%nat by (symmetry; rewrite Nat.mul_comm; apply Nat.mod_mul; lia).
+    cbn [Nat.eqb negb].
+    replace ((32 * length nonces) / 32)%nat with (length nonces) by (symmetry; rewrite Nat.mul_comm; apply Nat.div_mul; lia).
+    unfold inputs at 1. rewrite map_length, Nat.eqb_refl. cbn [negb].
+    assert (Ch : chunks32 (length nonces) body = map enc_elt evs).
+    { unfold body. rewrite <- (app_nil_r (concat _)).
+      replace (length nonces) with (length (map enc_elt evs)) by (unfold evs; now rewrite !map_length, Lbl).
+      apply chunks32_concat, enc_all_32. }
+    rewrite Ch, dec_all_enc, proof_b_len. replace (Nat.ltb 64 64) with false by reflexivity.
+    rewrite <- (proof_b_len k bl evs rnd) at 1. rewrite firstn_all.
+    unfold evs at 1 2. rewrite dleq_b_complete. cbn [negb].
+    apply tokens_of; assumption.
+  Qed.
+End Type5P.
